@@ -1163,6 +1163,80 @@ def check_carried_state(rep: Report, ix) -> None:
     rep.floor("stepper functions handing carried data to a hook / compiled stepper", n_use, 8)
 
 
+
+# ----------------------------------------------------------------------------
+# the layers between controller and inner stepper pass times and counters through unchanged
+# ----------------------------------------------------------------------------
+def check_stepper_layers(rep: Report, ix, tier: str) -> None:
+    """(1) every back-end `make_stepper` returns a closure that hands (state.data, t_start, t_end) to the inner stepper and
+    returns *its* result unmodified -- the time reported to the controller is the time actually reached (clamping it to
+    t_end makes the controller's clock lag behind the state, so more than N steps are taken);  (2) SolverBase.make_stepper
+    (and the adaptive override) reset info['steps'] to 0 unconditionally when a stepper is built, because every inner
+    stepper only adds to it (a solver object used for a second run would report steps of both runs)."""
+    sites = [("pde/backends/base.py", "BackendBase.make_stepper"), ("pde/backends/numba/backend.py", "NumbaBackend.make_stepper")]
+    n = 0
+    for rel, qn in sites:
+        f = ix.func(rel, qn)
+        rep.saw("functions", f.ref)
+        inner_names = set()
+        for st in ast.walk(f.node):
+            if isinstance(st, ast.Assign) and len(st.targets) == 1 and isinstance(st.targets[0], ast.Name) and isinstance(st.value, ast.Call) and dotted(st.value.func).split(".")[-1] in ("_make_inner_stepper", "make_inner_stepper"):
+                inner_names.add(st.targets[0].id)
+        if not inner_names:
+            raise AnalysisError(f"{f.ref}: the inner stepper is not obtained from (_)make_inner_stepper")
+        wrappers = [g for g in f.nested() if any(isinstance(c, ast.Call) and isinstance(c.func, ast.Name) and c.func.id in inner_names for c in ast.walk(g.node))]
+        if len(wrappers) != 1:
+            raise AnalysisError(f"{f.ref}: expected exactly one closure calling the inner stepper, found {len(wrappers)}")
+        w = wrappers[0]
+        ps = [a.arg for a in w.node.args.args]
+        rets = [r for r in ast.walk(w.node) if isinstance(r, ast.Return)]
+        for r in rets:
+            n += 1
+            v = r.value
+            # resolve a local name bound once to the call
+            if isinstance(v, ast.Name):
+                defs = [st.value for st in ast.walk(w.node) if isinstance(st, ast.Assign) and any(isinstance(t, ast.Name) and t.id == v.id for t in st.targets)]
+                v2 = defs[0] if len(defs) == 1 else None
+            else:
+                v2 = v
+            ok = isinstance(v2, ast.Call) and isinstance(v2.func, ast.Name) and v2.func.id in inner_names and len(v2.args) == 3 and len(ps) == 3 and ast.unparse(v2.args[0]) == f"{ps[0]}.data" and [ast.unparse(a) for a in v2.args[1:]] == ps[1:]
+            rep.oblige(f"{qn}: the wrapper returns the inner stepper's time unmodified", bool(ok), ast.unparse(r.value) if r.value is not None else None)
+            if not ok:
+                rep.violation(
+                    "C07.time-flow",
+                    f"{w.ref}::return",
+                    f"the back-end stepper wrapper returns `{ast.unparse(r.value) if r.value is not None else None}` instead of the value of `{sorted(inner_names)[0]}({ps[0]}.data, {ps[1]}, {ps[2]})`: "
+                    "the controller takes its clock from this value, so an altered time (e.g. clamped to t_end) no longer is the time of the state and the number of steps changes with the tracker intervals",
+                    line=r.lineno,
+                )
+    rep.floor("returns of back-end stepper wrappers", n, 2)
+    # (2)
+    n2 = 0
+    for rel, qn in (("pde/solvers/base.py", "SolverBase.make_stepper"), ("pde/solvers/base.py", "AdaptiveSolverBase.make_stepper")):
+        try:
+            f = ix.func(rel, qn)
+        except AnalysisError:
+            continue
+        rep.saw("functions", f.ref)
+        body = [st for st in f.node.body]
+        resets = [st for st in ast.walk(f.node) if isinstance(st, ast.Assign) and any(_is_info_item(t, "steps") for t in st.targets) and isinstance(st.value, ast.Constant) and st.value.value == 0]
+        delegates = [c for c in ast.walk(f.node) if isinstance(c, ast.Call) and isinstance(c.func, ast.Attribute) and c.func.attr == "make_stepper" and isinstance(c.func.value, ast.Call) and dotted(c.func.value.func) == "super"]
+        # unconditional: the reset is a statement of the function body itself (not nested in if/try)
+        top = [st for st in resets if st in body]
+        ok = bool(top) or (bool(delegates) and not resets)
+        n2 += 1
+        rep.oblige(f"{qn}: info['steps'] is reset to 0 unconditionally (or the method delegates to the base implementation)", ok, [ast.unparse(st) for st in resets] or ("delegates" if delegates else "no reset"))
+        if not ok:
+            rep.violation(
+                "C07.steps-accounted",
+                f"{f.ref}::reset",
+                "building a stepper does not reset info['steps'] to 0 unconditionally (every inner stepper only adds to it): a solver object that drives a second run reports the steps of both runs, "
+                "so t_final != t_start + steps*dt",
+                line=f.node.lineno,
+            )
+    rep.floor("make_stepper methods of the solver classes", n2, 1)
+
+
 def check(tier: str) -> Report:
     rep = Report("C07", tier, "other", "static: ownership/alias/effect rules on syntax + CFG reaching definitions; sympy closed forms of the stepping loops")
     rep.explanation = (
@@ -1181,6 +1255,7 @@ def check(tier: str) -> Report:
     check_fixed_steppers(rep, ix, tier)
     check_tracker_effects(rep, ix)
     check_carried_state(rep, ix)
+    check_stepper_layers(rep, ix, tier)
     rep.assumptions += [
         "user supplied callables (CallbackTracker/DataTracker functions, transformations, evolution_rate, title) do not modify the field they are shown",
         "FieldBase.copy returns an independent object (C15)",
